@@ -196,7 +196,7 @@ def run_case(rec, spec, variant, rng, oracles=("C01", "C02", "C05", "C06", "C12"
             return
         ndc = sum(e - s for s, e, k, _ in spansr if k in rc.DONTCARE)
         for j in range(scr_k):
-            mode = ["random", "ff", "text"][(j + rec.evaluations) % 3]
+            mode = ["random", "ff", "text", "smallint"][(j + rec.evaluations) % 4]
             xs = rc.scramble(xr, spansr, rng, mode)
             rec.count("c12:dontcare-bytes-scrambled", ndc)
             try:
@@ -446,7 +446,7 @@ def shard_capture(desc, rec):
         # C12 on the capture: scramble its don't-care bytes
         if "C12" in orc:
             for j in range(desc.get("scr_k", 2)):
-                xs = rc.scramble(payload, spans, rng, ["random", "ff", "text"][j % 3])
+                xs = rc.scramble(payload, spans, rng, ["random", "ff", "text", "smallint"][j % 4])
                 try:
                     os_, _ = lib.dec(kind, e["format"], xs)
                 except Exception as ex:
